@@ -39,6 +39,25 @@ WellFormed(rec) ==
   /\ SpeciesOK(c) /\ IsEnumeration(rec.morder, NSpecies(c))
   /\ Len(c.eps) = NSpecies(c) /\ Len(c.sigma) = NSpecies(c) /\ Len(c.rc) = NSpecies(c)
 
+\* a lattice record (scale): decided from the row of particle 1 (Hessian!GeoOne); the interacting pair set of all N^2 pairs is
+\* not enumerated, the matrix is compared entry by entry with the blocks placed by index difference
+WhyLat(rec) ==
+  LET g == TLCEval(GeoOne(CfgOfRec(rec))) IN
+  IF ~(WellFormed(rec) /\ IsHessLattice(rec)) THEN "BadRecord"
+  ELSE IF IsTie(g) THEN ""
+  ELSE IF rec.finite # 1 THEN "Finite"
+  ELSE IF rec.symmetric # 1 THEN "Symmetric"
+  ELSE ""
+ExpectLat(rec) ==
+  LET c  == CfgOfRec(rec)
+      g  == TLCEval(GeoOne(c))
+      ks == SortedSeq(Interacting(g))
+  IN  IF IsTie(g) THEN [m |-> "TraceTie", id |-> rec.id]
+      ELSE [ m |-> "TraceLattice", id |-> rec.id,
+             defs  |-> Defs(c, g, tabs[c.model]),
+             table |-> [t \in 1..Len(ks) |-> [k |-> ks[t], delta |-> LatDelta(rec, 1, g[ks[t]].j), d |-> g[ks[t]].d]],
+             mroot |-> c.mroot[1] ]
+
 Why(rec) ==
   LET g == TLCEval(GeoOf(CfgOfRec(rec))) IN
   IF ~WellFormed(rec) THEN "BadRecord"
@@ -71,8 +90,9 @@ Expect(rec) ==
 
 Init == l = 1 /\ bad = "" /\ tabs = PotTable
 Step == /\ l <= Len(Tr) /\ bad = ""
-        /\ LET w == Why(Tr[l]) IN
-           IF w = "" THEN /\ PrintT(ToJson(Expect(Tr[l])))
+        /\ LET isl == "lat" \in DOMAIN Tr[l]
+               w   == IF isl THEN WhyLat(Tr[l]) ELSE Why(Tr[l]) IN
+           IF w = "" THEN /\ PrintT(ToJson(IF isl THEN ExpectLat(Tr[l]) ELSE Expect(Tr[l])))
                           /\ l' = l + 1 /\ bad' = ""
            ELSE l' = l /\ bad' = w
         /\ UNCHANGED tabs
